@@ -324,6 +324,30 @@ fn dep3_lane(ctx: &mut Ctx, idx: u64) {
             }
         }
     }
+    if idx % 4 == 3 {
+        // text direction: an Origin that is only a category keyword, or keyword + location, prints back as written
+        for text in ["vendor", "upstream", "backport", "other", "vendor, https://bugs.debian.org/1", "commit:abc123"] {
+            let doc = format!("Origin: {}\n", text);
+            let res = guard(1024, || {
+                let lossy = dep3::lossy::PatchHeader::from_str(&doc).map(|h| h.to_string());
+                let lossless = dep3::lossless::PatchHeader::from_str(&doc).map_err(|e| e.to_string()).map(|mut h| {
+                    if let Some((c, o)) = h.origin() {
+                        h.set_origin(c, o);
+                    }
+                    h.to_string()
+                });
+                (lossy, lossless)
+            });
+            ctx.count("origin-texts");
+            match res {
+                Ok((Ok(a), Ok(b))) if a == doc && b == doc => {}
+                other => {
+                    ctx.violation(&format!("text-not-printed-back|PatchHeader.origin|{}", if text.contains(' ') || text.contains(':') { "keyword+location" } else { "bare-keyword" }), json!({"text": doc, "got": format!("{:?}", other.map_err(|f| f.msg))}));
+                    break;
+                }
+            }
+        }
+    }
     ctx.nontrivial(format!("{}|{}", idx % 4, s).as_bytes());
     let cn = ["Forwarded", "Origin", "AppliedUpstream", "Origin with category"][(idx % 4) as usize];
     ctx.sample(|| json!({"text": s, "codec": cn}));
